@@ -108,3 +108,19 @@ def directed_cases():
     out.append({"cfg": {"rule": "STV", "m": 2, "quota": "droop", "sim": False, "transfer": "fractional", "tiebreak": None},
                 "profile": P(["A", "B", "C"], [B("AC", 4), B("BC", 4), B("C", 1)]), "tag": "dir-1by1-tie"})
     return out
+
+
+def sibling_weights_permuted(rnd, spec):
+    """same candidates, same rankings in the same order, same total weight - the weights are permuted among the ballots.
+    Run right after the original in the same process, it exposes results remembered from a look-alike profile."""
+    ws = [b["w"] for b in spec["ballots"]]
+    if len(set(ws)) < 2:
+        return None
+    for _ in range(5):
+        p = list(ws)
+        rnd.shuffle(p)
+        if p != ws:
+            break
+    else:
+        return None
+    return {"cands": list(spec["cands"]), "ballots": [dict(b, w=w) for b, w in zip(spec["ballots"], p)]}
